@@ -352,11 +352,11 @@ def engine_selftest(ctx: Ctx, seed: int) -> dict:
 
 
 def run(ctx: Ctx) -> None:
-    accumulator_rules(ctx, "1", "2")
-    vt_result(ctx, "2r")
-    ramfile_guard(ctx, "3")
-    regex_rules(ctx, "4")
-    ext_listing(ctx, "5")
+    ctx.call(accumulator_rules, "1", "2")
+    ctx.call(vt_result, "2r")
+    ctx.call(ramfile_guard, "3")
+    ctx.call(regex_rules, "4")
+    ctx.call(ext_listing, "5")
     if ctx.tier == "thorough":
         st = engine_selftest(ctx, ctx.seed)
         ctx.extra.update(st)
